@@ -855,7 +855,7 @@ pub fn run_close(servers: &Servers, case: &CloseCase) -> Vec<(String, String)> {
 
 /// The peer closes its own sending direction (EOF on the pipe / TLS close_notify), stays around, and stops
 /// reading. The outstanding request and a large follow-up request must both fail in bounded time.
-pub fn run_half_close(servers: &Servers, xport: Xport, followup_bytes: usize, idle: bool) -> Vec<(String, String)> {
+pub fn run_half_close(servers: &Servers, xport: Xport, followup_bytes: usize, idle: bool, reply_prefix: usize) -> Vec<(String, String)> {
     let mut problems = Vec::new();
     let plan = ClientPlan { requests: usize::from(!idle), followup: true, idle_before: if idle { Duration::from_millis(300) } else { Duration::ZERO }, collect_after_all_sent: false, big_request: None, collect_delay: Duration::ZERO, big_followup: Some(followup_bytes) };
     let running = start(servers, xport, plan);
@@ -870,6 +870,12 @@ pub fn run_half_close(servers: &Servers, xport: Xport, followup_bytes: usize, id
     }
     if idle {
         _ = wait_until(Duration::from_secs(2), || log.lock().unwrap().established.is_some());
+    }
+    if !idle && reply_prefix > 0 {
+        // the first bytes of the reply are delivered, the rest never comes
+        let reply = reply_for(1);
+        _ = peer.send_chunk(&reply.as_bytes()[..reply_prefix.min(reply.len() - 1)]);
+        std::thread::sleep(Duration::from_millis(20));
     }
     let cpu_before = cpu_time();
     let t0 = Instant::now();
@@ -1131,26 +1137,42 @@ pub fn run_c07(report: &mut Report) {
     // the peer closes only its sending direction and stops reading; then a request larger than what the
     // connection buffers
     if stuck_runtimes < 10 {
-        for (xport, bytes, idle) in [(Xport::Local, 300_000usize, false), (Xport::Tls, 16_000_000, false), (Xport::Local, 300_000, true), (Xport::Tls, 16_000_000, true)] {
+        let r1 = reply_for(1).len();
+        // with a request outstanding the peer half-closes before any reply byte and after a prefix of the reply
+        // (quick: three offsets; thorough: every fourth offset and the six before the end)
+        let mut prefixes: Vec<usize> = if thorough { (0..r1).step_by(4).chain(r1 - 6..r1).collect() } else { vec![0, r1 / 2, r1 - 1] };
+        prefixes.sort_unstable();
+        prefixes.dedup();
+        let mut half: Vec<(Xport, usize, bool, usize)> = Vec::new();
+        for (xport, bytes) in [(Xport::Local, 300_000usize), (Xport::Tls, 16_000_000)] {
+            half.extend(prefixes.iter().map(|p| (xport, bytes, false, *p)));
+        }
+        half.extend([(Xport::Local, 300_000, true, 0), (Xport::Tls, 16_000_000, true, 0)]);
+        let mut half_violations: std::collections::BTreeMap<String, u32> = std::collections::BTreeMap::new();
+        for (xport, bytes, idle, prefix) in half {
+            let when = if idle { "peer-half-closes-while-idle-and-stops-reading" } else { "peer-half-closes-and-stops-reading" };
+            if half_violations.get(&format!("{xport:?}{when}")).copied().unwrap_or(0) >= 3 {
+                continue;
+            }
             evaluations += 1;
-            _ = distinct.insert(format!("{xport:?}|half-close|{idle}"));
-            let problems = run_half_close(&servers, xport, bytes, idle);
+            _ = distinct.insert(format!("{xport:?}|half-close|{idle}|{prefix}"));
+            let problems = run_half_close(&servers, xport, bytes, idle, prefix);
             if !problems.is_empty() {
                 servers.reset_runtime();
+                *half_violations.entry(format!("{xport:?}{when}")).or_insert(0) += 1;
             }
             for (class, what) in problems {
                 if class.starts_with("machinery") {
                     panic!("machinery failure in the half-close case: {what}");
                 }
-                let when = if idle { "peer-half-closes-while-idle-and-stops-reading" } else { "peer-half-closes-and-stops-reading" };
-                report.violation(&format!("C07:{class}:{xport:?}:{when}"), &format!("{xport:?}, {} follow-up request of {bytes} bytes: {what}", if idle { "no request outstanding at the time," } else { "one request outstanding at the time," }), json!({"transport": format!("{xport:?}"), "followup_request_bytes": bytes, "idle": idle}));
+                report.violation(&format!("C07:{class}:{xport:?}:{when}"), &format!("{xport:?}, {} follow-up request of {bytes} bytes: {what}", if idle { "no request outstanding at the time,".to_string() } else { format!("one request outstanding at the time, {prefix} of {r1} reply bytes delivered,") }), json!({"transport": format!("{xport:?}"), "followup_request_bytes": bytes, "idle": idle, "reply_prefix": prefix}));
             }
         }
     }
     report.set("evaluations", evaluations);
     report.set("distinct_nontrivial", distinct.len() as u64);
     report.set("exhaustive", stuck_runtimes < 10);
-    report.set("rule", "on each real transport x close kind {clean: TLS close_notify / cli closes stdout / SSH channel EOF; eof: FIN without close_notify / cli exits / SSH channel close; abort: TCP reset / cli SIGKILLed / TCP drop}: the peer closes after a prefix of the hello (every offset in the thorough tier), while the established session is idle, after 0-2 requests were written and before any reply byte, after a prefix of the reply stream, between two replies; then one further request; every pending and subsequent operation must resolve within the calibrated watchdog (>= 1.5 s, 40x establishment latency), without zero-length-read loops or CPU burn, Ok only for replies completely delivered before the close; distinct = (transport, kind, point)");
+    report.set("rule", "on each real transport x close kind {clean: TLS close_notify / cli closes stdout / SSH channel EOF; eof: FIN without close_notify / cli exits / SSH channel close; abort: TCP reset / cli SIGKILLed / TCP drop}: the peer closes after a prefix of the hello (every offset in the thorough tier), while the established session is idle, after 0-2 requests were written and before any reply byte, after a prefix of the reply stream, between two replies; then one further request; on TLS and the pipe the peer also closes only its sending direction and stops reading - idle, before any reply byte and after a prefix of the reply (three offsets, thorough: every fourth and the last six) - followed by a request larger than the connection buffers; every pending and subsequent operation must resolve within the calibrated watchdog (>= 1.5 s, 40x establishment latency), without zero-length-read loops or CPU burn, Ok only for replies completely delivered before the close; distinct = (transport, kind, point)");
     report.assume("bounded time is judged with a real-time watchdog three orders of magnitude above the loopback latency");
 }
 
